@@ -26,13 +26,21 @@ Definition model_emit (fx : bool) (h : helper) : list text :=
   | E_PenPos up v => e3_pen_pos up v | E_PenRate up v => e3_pen_rate up v | E_Servo ms st => e3_servo_timeout ms st | E_Var v i => e3_var_write v i
   | E_ClearSteps => e3_clear_steps | E_ClearAcc => e3_clear_acc
   end.
+(* motors_enable as documented in its comments, against a board that reports both motors disabled (QE,0,0 - the harness's port):
+   CU,50,0 first iff exactly one motor is requested; for a motor-2-only request the scale is read (QE) and set by EM,r2,r2
+   when it differs (it does: 0); the request itself, EM,r1,r2, comes last.  Every call, whatever was sent before. *)
+Definition doc_motors_on (r1 r2 : Z) : list text :=
+  let c1 := clamp 0 5 r1 in let c2 := clamp 0 5 r2 in
+  (if negb (c1 =? c2) && (c1 * c2 =? 0) then [T "CU,50,0"] else []) ++
+  (if (c1 =? 0) && negb (c2 =? 0) then [T "QE"; commas [Td "EM"; sz c2; sz c2]] else []) ++
+  [commas [Td "EM"; sz c1; sz c2]].
 (* what is documented *)
 Definition doc_of (h : helper) : list text :=
   match h with
   | L_XY dx dy dur | E_XY dx dy dur => doc (RqXY dx dy dur) | L_AB a b d => doc (RqAB a b d) | L_LM r1 s1 a1 r2 s2 a2 c => doc (RqLM r1 s1 a1 r2 s2 a2 c)
   | L_Abs r p1 p2 | E_Abs r p1 p2 => doc (RqAbs r (both p1 p2)) | L_Pause n | E_Pause n => doc (RqPause n)
   | L_MotorsOff | E_MotorsOff => doc RqMotorsOff | L_Motors r => doc (RqMotorsBoth r)
-  | E_MotorsOn r1 r2 => [commas [Td "EM"; sz (clamp 0 5 r1); sz (clamp 0 5 r2)]]
+  | E_MotorsOn r1 r2 => doc_motors_on r1 r2
   | L_Pen up d p | E_Pen up d p => doc (RqPen up d p) | L_BConfig p s => doc (RqBConfig p s 0) | E_BConfig p s d => doc (RqBConfig p s d)
   | L_BSet p s | E_BSet p s => doc (RqBSet p s) | L_Toggle => doc RqToggle | L_PenPos up v | E_PenPos up v => doc (RqPenPos up v)
   | L_PenRate up v | E_PenRate up v => doc (RqPenRate up v) | L_LayerVar v => doc (RqVarSet v None) | E_Var v i => doc (RqVarSet v (Some i))
@@ -49,6 +57,6 @@ Definition last_only (h : helper) (w : list text) : list text :=
 Definition check06 (c : case06) : Z :=
   match c with
   | K06 fx h None => 3
-  | K06 fx h (Some w) => code_of (negb (texts_eqb (model_emit fx h) (last_only h w))) (negb (texts_eqb (doc_of h) (last_only h w)))
+  | K06 fx h (Some w) => code_of (negb (texts_eqb (model_emit fx h) (last_only h w))) (negb (texts_eqb (doc_of h) w))
   end.
 Definition run06 (cs : list case06) := report (map check06 cs).
